@@ -481,6 +481,9 @@ struct SessCover {
     metadata_queries: u64,
     crash_points: u64,
     clock_stepped_back: u64,
+    company_planned: u64,
+    company_started: u64,
+    company_failed: u64,
     failing: Vec<(u64, Vec<Violation>)>,
     failing_total: u64,
     requested_not_run: u64,
@@ -505,6 +508,9 @@ impl SessCover {
         self.metadata_queries += o.metadata_queries;
         self.crash_points += o.crash_points;
         self.clock_stepped_back += o.clock_stepped_back;
+        self.company_planned += o.company_planned;
+        self.company_started += o.company_started;
+        self.company_failed += o.company_failed;
         self.failing.extend(o.failing);
         self.failing_total += o.failing_total;
         self.requested_not_run += o.requested_not_run;
@@ -542,7 +548,8 @@ fn run_session_batch(ctx: &Arc<Ctx>, gen: Gen, seed: u64, sessions: u64, threads
                         let (steps, mtime_seed) = sim::session_steps(seed, gen, &ctx.image, i, m0);
                         let res = sim::execute_session(gen, &ctx.image, &steps, mtime_seed, false);
                         sim::set_label(None);
-                        let v = sim::judge_session(&res, &ctx.comp, &mut good);
+                        let drifted: Vec<bool> = steps.iter().map(|st| !st.drift.is_empty()).collect();
+                        let v = sim::judge_session_with(&res, &drifted, &ctx.comp, &mut good);
                         cov.sessions += 1;
                         cov.runs += res.runs.len() as u64;
                         for (st, r) in steps.iter().zip(res.runs.iter()) {
@@ -561,6 +568,16 @@ fn run_session_batch(ctx: &Arc<Ctx>, gen: Gen, seed: u64, sessions: u64, threads
                             }
                             if r.torn_write {
                                 cov.torn_writes += 1;
+                            }
+                            if st.intruder.is_some() {
+                                cov.company_planned += 1;
+                            }
+                            if let Some(r2) = &r.intruder {
+                                cov.company_started += 1;
+                                cov.runs += 1;
+                                if r2.panic.is_some() {
+                                    cov.company_failed += 1;
+                                }
                             }
                         }
                         let before_last = &res.runs[res.runs.len() - 2].disk_after;
@@ -636,8 +653,16 @@ fn write_session_replay(
     let steps_json: Vec<serde_json::Value> = steps
         .iter()
         .enumerate()
-        .map(|(i, (sched, crash, gap, drift))| {
+        .map(|(i, (sched, crash, gap, drift, company))| {
             json!({
+                "second_instance_running_meanwhile": match company {
+                    Some((g, sc, at)) => json!({
+                        "generator": if *g == 0 { "layout" } else { "likely" },
+                        "started_before_file_system_mutation": at,
+                        "schedule": schedule::to_json(sc, &ctx.image),
+                    }),
+                    None => json!(null),
+                },
                 "run": i,
                 "judged": i + 1 == steps.len(),
                 "clock_gap_ns_since_previous_run": gap,
@@ -707,7 +732,15 @@ fn session_steps_from_json(j: &serde_json::Value, image: &FsImage) -> Result<(Ve
         };
         // directory orders of a run on an earlier data version name entries of that version
         let sched = if drift.is_empty() { schedule::from_json(&st["schedule"], image)? } else { schedule::from_json(&st["schedule"], &image.with_drift(&drift))? };
-        out.push((sched, crash_from_json(&st["cut_short"]), st["clock_gap_ns_since_previous_run"].as_i64().unwrap_or(0), drift));
+        let company = match &st["second_instance_running_meanwhile"] {
+            c if c.is_object() => Some((
+                if c["generator"].as_str() == Some("likely") { 1u8 } else { 0u8 },
+                schedule::from_json(&c["schedule"], image)?,
+                c["started_before_file_system_mutation"].as_u64().unwrap_or(0),
+            )),
+            _ => None,
+        };
+        out.push((sched, crash_from_json(&st["cut_short"]), st["clock_gap_ns_since_previous_run"].as_i64().unwrap_or(0), drift, company));
     }
     if out.is_empty() {
         return Err("session replay with no steps".into());
@@ -1461,7 +1494,8 @@ fn cmd_check(a: &Args) -> i32 {
                 let (min, tests) = sim::minimise_session(*gen, &ctx.image, &ctx.comp, explicit, ms, &class);
                 let rr = sim::execute_session(*gen, &ctx.image, &sim::steps_from_explicit(&min), ms, false);
                 let mut good = vec![];
-                let final_v = sim::judge_session(&rr, &ctx.comp, &mut good)
+                let drifted: Vec<bool> = min.iter().map(|x| !x.3.is_empty()).collect();
+                let final_v = sim::judge_session_with(&rr, &drifted, &ctx.comp, &mut good)
                     .into_iter()
                     .find(|x| sim::violation_class(x) == class)
                     .unwrap_or_else(|| v.clone());
@@ -1614,6 +1648,9 @@ fn cmd_check(a: &Args) -> i32 {
                     "earlier_runs_that_completed": c.earlier_runs_completed,
                     "writes_torn_by_the_crash": c.torn_writes,
                     "runs_started_after_the_clock_was_stepped_back": c.clock_stepped_back,
+                    "runs_with_a_second_instance_planned": c.company_planned,
+                    "second_instances_started_before_a_file_system_mutation_of_the_first": c.company_started,
+                    "second_instances_that_failed_loudly_not_judged": c.company_failed,
                     "file_system_mutations": c.fs_mutations,
                     "metadata_queries": c.metadata_queries,
                     "crash_points_passed": c.crash_points,
@@ -2036,7 +2073,8 @@ fn cmd_replay(a: &Args) -> i32 {
                 }
             }
             let mut good = vec![];
-            sim::judge_session(&res, &comp, &mut good)
+            let drifted: Vec<bool> = steps.iter().map(|x| !x.3.is_empty()).collect();
+            sim::judge_session_with(&res, &drifted, &comp, &mut good)
         }
         Some("run") => {
             let gen = Gen::parse(j["generator"].as_str().unwrap_or("")).unwrap_or_else(|| harness_error("replay file: bad generator"));
